@@ -87,6 +87,8 @@ def classify(items, depth=None):
         raise NoOpinion("newaxis combined with advanced indexes")
     if sum(1 for k in kinds if k in ("field", "fields")) > 1:
         raise NoOpinion("several field items (existence of the later ones is a property of the projected type)")
+    if "content" in kinds and ("field" in kinds or "fields" in kinds):
+        raise NoOpinion("missing/jagged index combined with field names")
     if kinds.count("ellipsis") > 1:
         raise Refuse("more than one ellipsis")
     for it in items:
